@@ -297,16 +297,6 @@ func runCheck(prop, tier string, seed int) int {
 	var known []KnownFinding
 	loadJSON(filepath.Join(verifDir, "known_findings.json"), &known)
 
-	var engineErrs []string
-	for _, fr := range frs {
-		if fr.Err != "" {
-			engineErrs = append(engineErrs, fr.Err)
-		}
-	}
-	// vacuity guards
-	if len(groups) == 0 {
-		engineErrs = append(engineErrs, "no obligations generated")
-	}
 	seen := map[string]bool{}
 	for _, g := range groups {
 		seen[g.ID] = true
@@ -320,6 +310,59 @@ func runCheck(prop, tier string, seed int) int {
 	violations := 0
 	var undecided []string
 	var lines []string
+	// functions whose proof failed or whose contract no longer attaches: look for a concrete failing
+	// input by evaluating the contract at run time against the real code (bounded, see rt.go)
+	fnOf := func(id string) string {
+		if i := strings.Index(id, "/"); i >= 0 {
+			return id[:i]
+		}
+		return id
+	}
+	isRepoFn := func(k string) bool { _, ok := P.Funcs[k]; return ok && L.Funcs[k] != nil }
+	needRT := map[string]bool{}
+	for _, g := range groups {
+		if len(g.Failed) > 0 && (inLedger[g.ID] || len(ledger[prop]) == 0) && isRepoFn(fnOf(g.ID)) {
+			needRT[fnOf(g.ID)] = true
+		}
+	}
+	detached := map[string]string{}
+	for _, fr := range frs {
+		if fr.Err != "" && isRepoFn(fr.Key) {
+			needRT[fr.Key] = true
+			detached[fr.Key] = fr.Err
+		}
+	}
+	rtRes := map[string]*rtResult{}
+	if len(needRT) > 0 {
+		n := 4000
+		if tier == "thorough" {
+			n = 40000
+		}
+		for _, r := range runRT(P, L, sortedKeys(needRT), n, seed+1, -1) {
+			rtRes[r.Key] = r
+		}
+	}
+	var bounded []string
+	if tier == "thorough" {
+		// cross-check of the SMT model of Go: every function of the property, many inputs
+		var rest []string
+		for _, k := range pc.Functions {
+			if !needRT[k] && isRepoFn(k) {
+				rest = append(rest, k)
+			}
+		}
+		for _, r := range runRT(P, L, rest, 20000, seed+1, -1) {
+			rtRes[r.Key] = r
+			if r.Failed {
+				violations++
+				rp := writeRTReplay(prop, r.Key+"/"+r.FailClause, r, "run-time evaluation of the contract on the real code found a failing input although the proof obligations are discharged: either the code violates the contract on an input outside the verifier's model, or the model is unsound here")
+				lines = append(lines, fmt.Sprintf("VIOLATION property=%s replay=%s", prop, rp))
+			} else if r.Error == "" {
+				bounded = append(bounded, fmt.Sprintf("%s: contract evaluated at run time on %d generated inputs (%d skipped by requires), clauses %v, seed %d: no failure [bounded cross-check, not proof]", r.Key, r.Checked, r.Skipped, r.Clauses, seed+1))
+			}
+		}
+	}
+	reported := map[string]bool{}
 	for _, g := range groups {
 		if len(g.Failed) == 0 {
 			continue
@@ -329,9 +372,31 @@ func runCheck(prop, tier string, seed int) int {
 			continue
 		}
 		violations++
+		r := rtRes[fnOf(g.ID)]
+		if r != nil && r.Failed {
+			rp := writeReplayRT(prop, g, r)
+			lines = append(lines, fmt.Sprintf("VIOLATION property=%s replay=%s", prop, rp))
+			reported[fnOf(g.ID)] = true
+			continue
+		}
 		rp := writeReplay(prop, g, frs)
-		suffix := " no-failing-input-found"
-		lines = append(lines, fmt.Sprintf("VIOLATION property=%s replay=%s%s", prop, rp, suffix))
+		lines = append(lines, fmt.Sprintf("VIOLATION property=%s replay=%s no-failing-input-found", prop, rp))
+	}
+	// contracts that no longer attach (renamed local in an invariant, changed signature ...): the bounded
+	// stand-in decides. A failing input is a violation; otherwise the function is reported as not proved.
+	var stillDetached []string
+	for _, k := range sortedKeys(map[string]bool(func() map[string]bool { m := map[string]bool{}; for k := range detached { m[k] = true }; return m }())) {
+		r := rtRes[k]
+		switch {
+		case r != nil && r.Failed:
+			violations++
+			rp := writeRTReplay(prop, k+"/"+r.FailClause, r, "the contract no longer attaches to this function ("+detached[k]+"); its requires/ensures clauses were evaluated at run time against the real code instead")
+			lines = append(lines, fmt.Sprintf("VIOLATION property=%s replay=%s", prop, rp))
+		case r != nil && r.Error == "" && r.Checked > 0:
+			bounded = append(bounded, fmt.Sprintf("%s: PROOF NOT ATTACHED (%s); bounded stand-in: contract evaluated at run time on %d generated inputs, clauses %v, not evaluable %v: no failure", k, detached[k], r.Checked, r.Clauses, r.Unsupported))
+		default:
+			stillDetached = append(stillDetached, k)
+		}
 	}
 	for _, kf := range known {
 		if kf.Property == prop && kf.Status == "open" {
@@ -341,23 +406,59 @@ func runCheck(prop, tier string, seed int) int {
 	for _, l := range lines {
 		fmt.Println(l)
 	}
+	for _, b := range bounded {
+		fmt.Println("BOUNDED " + b)
+	}
 	wall := time.Since(t0).Seconds()
-	writeEvidence(prop, tier, seed, pc, frs, groups, wall, violations, engineErrs, undecided)
-	if len(engineErrs) > 0 {
-		for _, e := range engineErrs {
+	// engine errors that the stand-in resolved are no longer fatal
+	var fatal []string
+	for _, fr := range frs {
+		if fr.Err == "" {
+			continue
+		}
+		resolved := false
+		if _, ok := detached[fr.Key]; ok {
+			resolved = true
+			for _, k := range stillDetached {
+				if k == fr.Key {
+					resolved = false
+				}
+			}
+		}
+		if !resolved {
+			fatal = append(fatal, fr.Err)
+		}
+	}
+	if len(groups) == 0 {
+		fatal = append(fatal, "no obligations generated")
+	}
+	if pc.Bounded == nil {
+		pc.Bounded = []string{}
+	}
+	pc.Bounded = append(pc.Bounded, bounded...)
+	writeEvidence(prop, tier, seed, pc, frs, groups, wall, violations, fatal, undecided)
+	if violations > 0 {
+		return 1
+	}
+	if len(fatal) > 0 {
+		for _, e := range fatal {
 			fmt.Printf("ENGINE-FAIL property=%s %s\n", prop, e)
 		}
 		return 3
 	}
-	if len(missing) > 0 {
+	var reallyMissing []string
+	for _, id := range missing {
+		if _, ok := detached[fnOf(id)]; ok {
+			continue // covered by the bounded stand-in above
+		}
+		reallyMissing = append(reallyMissing, id)
+	}
+	if len(reallyMissing) > 0 {
 		// an obligation of the reference tree can no longer be generated: the contract no longer attaches
-		for _, id := range missing {
+		for _, id := range reallyMissing {
 			fmt.Printf("ENGINE-FAIL property=%s obligation %s of the reference ledger was not generated\n", prop, id)
 		}
 		return 3
-	}
-	if violations > 0 {
-		return 1
 	}
 	d := 0
 	for _, g := range groups {
@@ -639,4 +740,80 @@ func cmdSweep(args []string) {
 		fmt.Printf("ABSTR %4d %s\n", abstr[a], a)
 	}
 	fmt.Printf("%d functions, %d obligation instances, %d distinct errors\n", len(P.Funcs), total, len(errs))
+}
+
+// writeReplayRT: a failed obligation for which run-time evaluation found a concrete failing input
+func writeReplayRT(prop string, g *Group, r *rtResult) string {
+	path := writeReplay(prop, g, nil)
+	var rep map[string]interface{}
+	loadJSON(path, &rep)
+	rep["replayed_input"] = r
+	rep["note"] = "obligation discharged on the reference tree and not discharged on this tree; evaluating the function's contract at run time against the real code found the failing input below"
+	rep["replay_cmd"] = fmt.Sprintf("/verif/bin/govc replay %s", path)
+	data, _ := json.MarshalIndent(rep, "", " ")
+	os.WriteFile(path, data, 0o644)
+	return path
+}
+
+func writeRTReplay(prop, id string, r *rtResult, note string) string {
+	dir := filepath.Join(verifDir, "replays")
+	os.MkdirAll(dir, 0o755)
+	name := strings.NewReplacer("/", "_", ":", "_", "*", "P", "(", "", ")", "", " ", "_", "$", "_").Replace(id)
+	path := filepath.Join(dir, fmt.Sprintf("%s-%s.json", prop, name))
+	rep := map[string]interface{}{
+		"property":          prop,
+		"failed_obligation": id,
+		"kind":              "runtime-contract-evaluation",
+		"replayed_input":    r,
+		"note":              note,
+		"replay_cmd":        fmt.Sprintf("/verif/bin/govc replay %s", path),
+	}
+	data, _ := json.MarshalIndent(rep, "", " ")
+	os.WriteFile(path, data, 0o644)
+	return path
+}
+
+// cmdReplay re-runs the failing input recorded in a replay file against /repo's current tree.
+func cmdReplay(args []string) {
+	if len(args) != 1 {
+		fmt.Fprintln(os.Stderr, "usage: govc replay <file>")
+		os.Exit(2)
+	}
+	var rep struct {
+		Property string    `json:"property"`
+		Obl      string    `json:"failed_obligation"`
+		Input    *rtResult `json:"replayed_input"`
+		Note     string    `json:"note"`
+	}
+	if err := loadJSON(args[0], &rep); err != nil {
+		fmt.Fprintln(os.Stderr, err)
+		os.Exit(2)
+	}
+	fmt.Printf("property %s, obligation %s\n%s\n", rep.Property, rep.Obl, rep.Note)
+	if rep.Input == nil || !rep.Input.Failed {
+		fmt.Println("no concrete failing input was recorded for this obligation (no-failing-input-found); the file carries the solver output")
+		os.Exit(0)
+	}
+	P, err := loadProgram()
+	if err != nil {
+		fmt.Fprintln(os.Stderr, err)
+		os.Exit(3)
+	}
+	L, err := loadLibrary()
+	if err != nil {
+		fmt.Fprintln(os.Stderr, err)
+		os.Exit(3)
+	}
+	res := runRT(P, L, []string{rep.Input.Key}, rep.Input.Iter+1, rep.Input.Seed, rep.Input.Iter)
+	for _, r := range res {
+		if r.Failed {
+			fmt.Printf("REPRODUCED on the current tree: %s\n", r.FailLine)
+			os.Exit(1)
+		}
+		if r.Error != "" {
+			fmt.Println("replay error:", r.Error)
+			os.Exit(3)
+		}
+	}
+	fmt.Println("not reproduced on the current tree (the recorded input passes)")
 }
